@@ -120,6 +120,13 @@ def pytree_cases(rng, n_random, thorough):
             for cls in ("EXC", "BASEEXC"):
                 u = {"t": "union", "ts": [wide_t, {"t": "user", "accept": ["A"], "faults": {"B": cls}}]}
                 cases.append((prior, {"t": "pytree", "l": u, "s": sname}, {"t": "tuple", "xs": [arr_val([2, 3, 5]), {"t": "opaque", "tag": "B"}]}, {}))
+    # a failed ARRAY check nested in a successful composite one (the first alternative of a union binds a per-leaf axis
+    # and then fails): what it bound must be gone, whatever key it was stored under
+    for dims1, dims2, shape in (("?a 3", "3 ?a", [3, 4]), ("?a ?a", "?a ?b", [2, 5]), ("a 3", "3 a", [3, 4]), ("*?v 9", "*?v a", [2, 3, 4])):
+        u = {"t": "union", "ts": [arr_type(dims1), arr_type(dims2)]}
+        for tree in ({"t": "tuple", "xs": [arr_val(shape)]}, {"t": "tuple", "xs": [arr_val(shape), arr_val(shape)]},
+                     {"t": "tuple", "xs": [arr_val(shape), arr_val([8, 8, 8])]}):
+            cases.append(([], {"t": "pytree", "l": u, "s": "T"}, tree, {}))
     for _ in range(n_random):
         lt = gen_prog.rand_leaf_type(rng)
         alpha = {nm: rng.below(4) for nm in gen_dims.NAMES}
